@@ -326,8 +326,12 @@ def norm(v):
     if isinstance(v, (bytes, bytearray)):
         return bytes(v)
     if isinstance(v, dict):
+        if type(v).__name__ == "LazyContainer":
+            return {k: norm(v[k]) for k in v.keys()}
         return {k: norm(x) for k, x in dict.items(v) if not (isinstance(k, str) and k.startswith("_"))}
     if isinstance(v, (list, tuple)):
+        if type(v).__name__ == "LazyListContainer":
+            return [norm(v[i]) for i in range(len(v))]
         return [norm(x) for x in v]
     if callable(v):
         return norm(v())
